@@ -108,6 +108,12 @@ CHECKS["C07"] = dict(level="exploration", design="DESIGN.md §6 C07, §3.1 SpecV
          "(order, early-stop guards, errors never retracted).",
     note="Detection power is the edit universe (all single edits of the bases in the thorough tier). 60 s watchdog for termination.")
 
+CHECKS["C10"] = dict(level="model_checking", design="DESIGN.md §6 C10, §3.1 SpecValidator (two-run product)",
+    technique="SpecValidator.tla two-run product checked exhaustively by TLC (Monotone, WarningsNeverInvalidate, ReturnedWarningsAreAttached, SameWhenValid, AlwaysReturns); repeated validations of each document in both modes recorded and validated by Trace_SpecRun.tla (memo first[doc, mode], subset, phase runs)",
+    text="The early-stop policy is model-checked as a product of a stopping and a continuing run over all per-phase contributions. Real runs are bound to it: each document is validated several times per mode across processes; "
+         "TLC requires identical message sets on repetition, errors(stop) subset of errors(continue), validity = no error, returned warnings = attached warnings, and phase traces that are runs of the machine.",
+    note="Documents with several simultaneous offenders are generated on purpose. Messages compared by text. Serialisation variants (YAML, member order) are exercised only through the fixtures that are YAML.")
+
 NOT_YET = {}
 
 
